@@ -146,7 +146,7 @@ def run(ctx: Ctx) -> int:
     runs = []   # (kind, job, src, passes, inputs)
     STARTS = {}
     for j in bjobs:
-        runs.append(("button", j, j[2], len(j[3]) - (0 if j[0] else 1), "d 7 " + " ".join(map(str, j[3]))))
+        runs.append(("button", j, j[2], len(j[3]) - 1, "d 7 " + " ".join(map(str, j[3]))))      # the first sample is taken by setup(), wherever the button is declared
     for j in ujobs:
         # a quarter of the runs start just before the millisecond counter wraps (host `unsigned long` is 64-bit: same arithmetic, other modulus);
         # their traces are read relative to the start value, so models and monitors see the same times as in an unwrapped run
@@ -180,6 +180,7 @@ def run(ctx: Ctx) -> int:
     for kind, j, src, passes, inputs in runs:
         if kind == "button":
             in_loop, nreads, _, sig = j
+            in_loop = False      # placement only: since fix 5cf46d6 a button declared in the loop body is sampled in setup() like any other
             reqs.append(f"fwbutton|{'-' if in_loop else sig[0]}|" + " ".join(map(str, sig if in_loop else sig[1:])))
         elif kind == "ultra":
             prog, passes, echoes, drifts = j
@@ -199,6 +200,7 @@ def run(ctx: Ctx) -> int:
         replay = {"script": src, "inputs": inputs, "passes": passes}
         if kind == "button":
             in_loop, nreads, _, sig = j
+            declared_in_loop, in_loop = in_loop, False
             setup_reads, ps = button_canon(res.trace, nreads)
             impl = " ".join(f"c{min(p['click'], 1)}v{1 if (p['vals'] and p['vals'][0]) else 0}" for p in ps)
             ctx.case(req + f"|{nreads}", nontrivial=any(sig), sample={"script": src, "signal": sig, "model": m} if len(ctx.cov["samples"]) < 2 else None)
@@ -223,7 +225,7 @@ def run(ctx: Ctx) -> int:
                 if "btn = Button(7)\n" in src:
                     rising = False          # re-declared without a handler: nothing to call
                 if p["click"] != (1 if rising else 0):
-                    key = "button:startup-click-loop-declared" if (in_loop and k == 0 and p["click"] == 1) else "button:click-not-rising-edge"
+                    key = "button:startup-click-loop-declared" if (declared_in_loop and k == 0 and p["click"] == 1 and sig[0] == 1) else "button:click-not-rising-edge"
                     ctx.fail(key, f"pass {k}: handler ran {p['click']} time(s); sample {s}, previous level {true_prev if true_prev is not None else s}", replay)
                 if len(p["vals"]) != nreads or any(v != bool(s) for v in p["vals"]):
                     ctx.fail("button:is_pressed-not-sample", f"pass {k}: is_pressed() returned {p['vals']} for sample {s}", replay)
